@@ -6,6 +6,7 @@ import (
 	"fmt"
 	"sync"
 
+	"github.com/sdcio/data-server/pkg/verifhook"
 	log "github.com/sirupsen/logrus"
 )
 
@@ -58,8 +59,10 @@ func (t *TransactionManager) CleanupTransaction(id string) error {
 }
 
 func (t *TransactionManager) Confirm(id string) error {
+	verifhook.Point("tm.confirm.beforeLock")
 	t.tmMutex.Lock()
 	defer t.tmMutex.Unlock()
+	verifhook.Point("tm.confirm.locked")
 	if t.transaction == nil {
 		return fmt.Errorf("no ongoing transaction")
 	}
@@ -71,8 +74,10 @@ func (t *TransactionManager) Confirm(id string) error {
 }
 
 func (t *TransactionManager) Cancel(ctx context.Context, id string) error {
+	verifhook.Point("tm.cancel.beforeLock")
 	t.tmMutex.Lock()
 	defer t.tmMutex.Unlock()
+	verifhook.Point("tm.cancel.locked")
 	if t.transaction == nil {
 		return fmt.Errorf("no ongoing transaction")
 	}
@@ -96,8 +101,10 @@ func (t *TransactionManager) GetTransaction(id string) (*Transaction, error) {
 }
 
 func (t *TransactionManager) Rollback(ctx context.Context, trans *Transaction) error {
+	verifhook.Point("tm.rollback.beforeLock")
 	t.tmMutex.Lock()
 	defer t.tmMutex.Unlock()
+	verifhook.Point("tm.rollback.locked")
 	_, err := t.rollbacker.TransactionRollback(ctx, trans, false)
 
 	t.transaction = nil
